@@ -37,6 +37,9 @@ type Obligation struct {
 	St     string `json:"status"`
 	Msg    string `json:"msg"`
 	Canary bool   `json:"canary,omitempty"`
+	// Covers: the number of uses this one construct stands for (a construct inside a helper
+	// with k call sites covers the k uses the hand-confirmed floor counted); 0 means 1.
+	Covers int `json:"covers,omitempty"`
 }
 
 // Rule is a registered rule of one property.
@@ -163,6 +166,13 @@ func (c *Ctx) Undecided(key, pos, fn, msg string) { c.add(Undecided, key, pos, f
 
 // InfoOb records an informational fact (evidence only).
 func (c *Ctx) InfoOb(key, pos, fn, msg string) { c.add(Info, key, pos, fn, msg) }
+
+// LastCovers marks the obligation recorded last as standing for k uses (see Obligation.Covers).
+func (c *Ctx) LastCovers(k int) {
+	if len(c.Obs) > 0 && k > 1 {
+		c.Obs[len(c.Obs)-1].Covers = k
+	}
+}
 
 // Check records Discharged when ok, Violated otherwise.
 func (c *Ctx) Check(ok bool, key, pos, fn, okMsg, badMsg string) {
@@ -320,6 +330,9 @@ func (c *Ctx) Run() int {
 				continue
 			}
 			n++
+			if o.Covers > 1 {
+				n += o.Covers - 1
+			}
 		}
 		ruleCount[r.ID] = n
 		floor := r.Floor
